@@ -108,6 +108,11 @@ def r_enum_shape(ck: Checker, rule: str = "R-ENUM-SHAPE") -> None:
     for gen in ("_gen_get_child_nodes_func", "_gen_get_child_nodes_with_field_func", "_gen_iter_child_fields_func"):
         for fr in fragments(ck.repo, gen):
             n += 1
+            dep = getattr(fr, "extra_dep", None)
+            if dep:
+                ck.violation(rule, fr.builder, fr.builder.node, f"generated {fr.accessor} lists every child field, however the field is declared",
+                             construct=f"{fr.accessor}: the emitted code for a child field changes with field.{dep} (such a child is left out / handled differently)")
+                return
             with_field = fr.accessor == "get_child_nodes_with_field"
             if fr.accessor == "iter_child_fields":
                 what = "generated iter_child_fields yields (self.<field>, field-of-<field>) for every child field"
@@ -656,12 +661,21 @@ def r_reinstall(ck: Checker, rule: str = "R-REINSTALL") -> None:
     for st in walk_body(isc.node.body):
         if isinstance(st, ast.Assign) and isinstance(st.targets[0], ast.Attribute) and norm(st.targets[0].value) == "cls":
             installed[st.targets[0].attr] = norm(st.value)
+    from ..dtree import decision_tree
+    from ..astutil import strip_docstring
+    paths = decision_tree(strip_docstring(isc.node.body), try_as_body=True, max_atoms=8)
     for acc in GENERATORS.values():
         what = f"__init_subclass__ re-installs the bootstrap for {acc} on every subclass"
-        if installed.get(acc) == f"gen_and_yield_{acc}":
-            ck.holds(rule, isc, isc.node, what)
-        else:
+        skipped = [lf for lf in paths if lf.outcome != "raise" and not any(
+            isinstance(st, ast.Assign) and isinstance(st.targets[0], ast.Attribute) and norm(st.targets[0].value) == "cls" and st.targets[0].attr == acc for st in lf.stmts)]
+        if installed.get(acc) != f"gen_and_yield_{acc}":
             ck.violation(rule, isc, isc.node, what, construct=f"__init_subclass__: cls.{acc} = {installed.get(acc)}")
+        elif skipped:
+            ck.violation(rule, isc, isc.node, what, evaluations=len(paths),
+                         construct=f"__init_subclass__: cls.{acc} is not re-installed when {skipped[0].assign}: such a subclass inherits the accessor compiled for (one of) its "
+                         "base classes, whose field layout may differ (several bases, fields added by a sibling base)")
+        else:
+            ck.holds(rule, isc, isc.node, what, evaluations=len(paths))
         m = ck.repo.func("pyoak.node", f"ASTNode.{acc}")
         cs = [c for c in ast.walk(m.node) if isinstance(c, ast.Call) and dotted(c.func) == f"gen_and_yield_{acc}"]
         what = f"ASTNode.{acc} delegates to its bootstrap with all arguments"
@@ -674,3 +688,30 @@ def r_reinstall(ck: Checker, rule: str = "R-REINSTALL") -> None:
             ck.holds(rule, m, m.node, what)
         else:
             ck.violation(rule, m, m.node, what, construct=f"ASTNode.{acc}: delegation mismatch")
+
+
+def r_props_dict(ck: Checker, rule: str = "R-ENUM-SHAPE") -> None:
+    """to_properties_dict is the name -> value mapping of every record of get_properties() (default flags), nothing filtered out."""
+    from ..astutil import comp_as_loop
+    f = ck.repo.func("pyoak.node", "ASTNode.to_properties_dict")
+    what = "to_properties_dict maps the name of every property yielded by get_properties() to its value (no property is dropped by name)"
+    comps = [n for n in ast.walk(f.node) if isinstance(n, ast.DictComp)]
+    loops = [n for n in ast.walk(f.node) if isinstance(n, ast.For)]
+    if len(comps) == 1 and not loops and len(comps[0].generators) == 1:
+        g = comps[0].generators[0]
+        if not (isinstance(g.iter, ast.Call) and isinstance(g.iter.func, ast.Attribute) and g.iter.func.attr == "get_properties" and norm(g.iter.func.value) == "self"):
+            raise Unsupported(f"to_properties_dict iterates {norm(g.iter)[:50]}", f.node)
+        if g.iter.args or g.iter.keywords:
+            raise Unsupported(f"to_properties_dict calls get_properties with arguments: {norm(g.iter)[:60]}", f.node)
+        if g.ifs:
+            ck.violation(rule, f, comps[0], what, construct=f"to_properties_dict: records are dropped unless {norm(g.ifs[0])[:60]}")
+            return
+        if not (isinstance(g.target, ast.Tuple) and len(g.target.elts) == 2):
+            raise Unsupported("to_properties_dict: record unpacking", f.node)
+        v_, f_ = (norm(x) for x in g.target.elts)
+        if norm(comps[0].key) == f"{f_}.name" and norm(comps[0].value) == v_:
+            ck.holds(rule, f, comps[0], what)
+        else:
+            raise Unsupported(f"to_properties_dict maps {norm(comps[0].key)[:30]} to {norm(comps[0].value)[:30]}", f.node)
+        return
+    raise Unsupported("to_properties_dict is not a single mapping over self.get_properties()", f.node)
